@@ -201,6 +201,21 @@ trait DataPointBuilder {
                 Ok(())
             }
 
+            fn i128(&mut self, value: i128) -> sval::Result {
+                // Integers that don't fit in an `i64` are still numbers; OTLP carries them as doubles
+                match i64::try_from(value) {
+                    Ok(value) => self.i64(value),
+                    Err(_) => self.f64(value as f64),
+                }
+            }
+
+            fn u128(&mut self, value: u128) -> sval::Result {
+                match i64::try_from(value) {
+                    Ok(value) => self.i64(value),
+                    Err(_) => self.f64(value as f64),
+                }
+            }
+
             fn f64(&mut self, value: f64) -> sval::Result {
                 self.aggregator.push_point_f64(value);
 
